@@ -366,9 +366,20 @@ def tree_to_snapshot(tree, prefix=""):
     return out
 
 
+def _scratch_root():
+    """where the file-system backends get their scratch directories: a RAM-backed file system when there is one
+    (tens of thousands of small trees are made and removed per run), else the default temporary directory"""
+    root = os.environ.get("VERIF_TMPDIR")
+    if root:
+        return root
+    if os.path.isdir("/dev/shm") and os.access("/dev/shm", os.W_OK | os.X_OK):
+        return "/dev/shm"
+    return None
+
+
 class TempDir:
     def __init__(self):
-        self.path = pathlib.Path(tempfile.mkdtemp(prefix="aioftp-vf-"))
+        self.path = pathlib.Path(tempfile.mkdtemp(prefix="aioftp-vf-", dir=_scratch_root()))
 
     def cleanup(self):
         shutil.rmtree(self.path, ignore_errors=True)
